@@ -16,7 +16,7 @@ TEXT = {
         engine="choice (E1)",
         design_ref="DESIGN.md §3 C11",
         technique="tiered bounded-exhaustive generation of AML programs from the supported grammar subset, encoded by an independent encoder and compared with a reference namespace built from the AST; differential cross-check on an overlay with the kept candidate repair",
-        text="T1 every construct (20) x name form (7) x container (13) x PkgLength encoding; T2 55 call/field/operator/module-level programs (field unit widths around every length-encoding boundary, forward, backward and nested calls, calls inside If/While/Store/Add/DerefOf/Index, calls with operator arguments, calls as the last operand of module-level operators, operators nested in SuperName operands such as SizeOf(DerefOf(Index(..))), module-level code) x containers and every ordered pair of constructs; T3 nested containers; T4 two- and three-table loads on one parser (Scope into / call into an earlier table; later tables after a table with deferred Buffer/While/Package blocks); T5 chains of Scope / relocation blocks that need several resolve passes, in every order. For every program the reference accepts: ParseAML succeeds, every named object is found at the absolute path ACPI scoping gives it with its declared kind, constants/strings/buffer bytes/field offset+width/mutex level carry the encoded values, every method invocation anywhere has exactly the declared number of arguments attached, no named object sits at a path the program does not declare. Failures whose program exhibits one of the two known root causes (by structural predicate) are reported as known findings and must pass on a second build with the kept repair applied through the overlay; any other failure is a violation.",
+        text="T1 every construct (20) x name form (7) x container (13) x PkgLength encoding; T2 59 call/field/operator/module-level programs (method names shadowed at two levels of one ancestor chain, field unit widths around every length-encoding boundary, forward, backward and nested calls, calls inside If/While/Store/Add/DerefOf/Index, calls with operator arguments, calls as the last operand of module-level operators, operators nested in SuperName operands such as SizeOf(DerefOf(Index(..))), module-level code) x containers and every ordered pair of constructs; T3 nested containers; T4 two- and three-table loads on one parser (Scope into / call into an earlier table; later tables after a table with deferred Buffer/While/Package blocks); T5 chains of Scope / relocation blocks that need several resolve passes, in every order. For every program the reference accepts: ParseAML succeeds, every named object is found at the absolute path ACPI scoping gives it with its declared kind, constants/strings/buffer bytes/field offset+width/mutex level carry the encoded values, every method invocation anywhere has exactly the declared number of arguments attached, no named object sits at a path the program does not declare. Failures whose program exhibits one of the two known root causes (by structural predicate) are reported as known findings and must pass on a second build with the kept repair applied through the overlay; any other failure is a violation.",
         note="Programs up to the tier sizes; conditionally declared objects (If at table level) are dynamic and outside the static namespace.",
     ),
     "C12": dict(
@@ -44,7 +44,7 @@ TEXT = {
         engine="choice (E1)",
         design_ref="DESIGN.md §3 C19",
         technique="full product of console geometries x argument boundary values per operation on the real drivers (loop-instrumented for a deterministic watchdog) against a pixel-level reference",
-        text="For every framebuffer configuration (grids 1..3 x 1..3, 3-7 fonts 8..16 px wide incl. the shipped ones, depths 8/15/16/24/32 with four mask layouts, pitch padding, logo rows, remainder rows, pristine and fully written pre-states) and every text-mode grid 1..4 x 1..4 and 80x25, Write, Fill and Scroll are called with every argument from {0,1,2,dim-1,dim,dim+1,2^31,2^32-2,2^32-1}: Write changes exactly the addressed cell's pixels (glyph bits in fg, rest in bg, packed for the pixel format) and nothing for off-grid coordinates; Fill changes exactly the clamped+clipped rectangle; Scroll by 1..rows moves the lines and leaves the logo alone, any other count changes nothing; no byte outside the addressed cells, in the padding or outside the framebuffer (bounds panic) is touched; no operation loops beyond 10^6 instrumented iterations.",
+        text="For every framebuffer configuration (grids 1..3 x 1..3, 3-7 fonts 8..16 px wide incl. the shipped ones, depths 8/15/16/24/32 with four mask layouts, pitch padding, logo rows, remainder rows, pristine and fully written pre-states) and every text-mode grid 1..4 x 1..4 and 80x25, Write, Fill and Scroll are called with every argument from {0,1,2,dim-1,dim,dim+1,2^31,2^32-2,2^32-1}: Write changes exactly the addressed cell's pixels (glyph bits in fg, rest in bg, packed for the pixel format) and nothing for off-grid coordinates; Fill changes exactly the clamped+clipped rectangle; Scroll by 1..rows moves the lines and leaves the logo alone, any other count changes nothing; no byte outside the addressed cells, in the padding or outside the framebuffer (bounds panic) is touched; no operation loops beyond 10^6 instrumented iterations. Colours are taken from the reference's own palette: Write/Fill after a palette entry was redefined (incl. colours that pack identically), and after every sequence of <=3 earlier writes, fills and palette redefinitions, must paint with the colours as redefined.",
         note="Vacated lines after a scroll are unconstrained; text-mode colour indices >= 15 only assert 'addressed cell, same character'.",
     ),
     "C10": dict(
@@ -79,7 +79,7 @@ TEXT = {
         engine="sched (E3) + x86mini (E4)",
         design_ref="DESIGN.md §3 C09",
         technique="stateless model checking of the real AllocFrame/FreeFrame over the instrumented spinlock: preemption-bounded DFS + unbounded state-pruned pass, ownership table, brute-force linearizability, happens-before monitor on go/ast-inserted field hooks",
-        text="11 (thorough 17) configurations - pools of 1, 2, 1+2 and 65 frames with 63/64 pre-held (collisions inside one bitmap word and across the word boundary), 2-4 (5) callers with <=3 (4) operations from {alloc, free own newest/oldest, racing free of one shared frame, free of an unmanaged frame} - are explored for preemption bounds 0..2 and without bound. Oracles: no frame handed to two holders; call/return history linearizable against the sequential allocator model (brute force over the <=9 calls); reservedPages / pool free counts equal initial + allocations - frees once all callers stopped; a final sequential drain recovers exactly the un-held frames; lock free at the end; no deadlock; no happens-before race on any allocator field that AllocFrame/FreeFrame assign.",
+        text="11 (thorough 17) configurations - pools of 1, 2, 1+2 and 65 frames with 63/64 pre-held (collisions inside one bitmap word and across the word boundary), 2-4 (5) callers with <=3 (4) operations from {alloc, free own newest/oldest, racing free of one shared frame, free of an unmanaged frame} - are explored for preemption bounds 0..2 and without bound. Oracles: no frame handed to two holders; call/return history linearizable against the sequential allocator model (brute force over the <=9 calls); reservedPages / pool free counts equal initial + allocations - frees once all callers stopped; a final sequential drain recovers exactly the un-held frames; lock free at the end; no deadlock; no happens-before race on any allocator field that AllocFrame/FreeFrame assign, whether it is reached through the receiver or through a local pointer into the receiver's state.",
         note="Pools are built by the real pmm.Init from a tiny multiboot map; 'up to 16 callers' is covered for 2-5 callers.",
     ),
     "C04": dict(
@@ -149,7 +149,7 @@ TEXT = {
         engine="graph (E2)",
         design_ref="DESIGN.md §3 C07",
         technique="explicit-state BFS over the real reservation functions with a big-integer-free overflow-exact reference oracle",
-        text="Every operation sequence up to the stated depth over a cursor-relative size alphabet (including sizes around the remaining space and around 2^64) is executed on the real EarlyReserveRegion/MapRegion/IdentityMapRegion; in every state the returned region is checked for alignment, size, disjointness from all earlier regions and exact page->frame pairs. The state of the mechanism is a single integer, so the search visits every reachable (cursor, lowest-region) pair of that alphabet.",
+        text="Every operation sequence up to the stated depth over a cursor-relative size alphabet (including sizes around the remaining space and around 2^64) is executed on the real EarlyReserveRegion/MapRegion/IdentityMapRegion; in every state the returned region is checked for alignment, size, disjointness from all earlier regions and the exact set of page->frame pairs (in whatever order they are mapped; after an injected mapping failure, what stays mapped must be a subset of it). Regions of 511..1537 pages placed after reservations of 0..513 pages (one to four last-level tables' worth, at different offsets inside a table) are mapped completely and with a failure at call 600. The state of the mechanism is a single integer, so the search visits every reachable (cursor, lowest-region) pair of that alphabet.",
         note="Size values outside the alphabet are not explored; page-table writes go to a recording seam (C04 covers the real writer).",
     ),
 }
